@@ -395,6 +395,7 @@ pub fn ellipse_event(rng: &mut Rng, depth: u8, dd: u8, lon: f64, lat: f64, a: f6
   m.insert("pen".into(), json!((pen * 1000.0).round() as i64));
   m.insert("ccap".into(), json!((lat.abs() > 0.7297276562269663) as u8));
   m.insert("a9".into(), json!((a * 1e9).min(2e9) as i64)); // semi-major axis in units of 1e-9 rad
+  m.insert("di".into(), json!(depth + dd));                 // depth at which the coverage is computed internally
   Some(ev)
 }
 
